@@ -316,7 +316,12 @@ struct ScriptedRunner : public CommandRunner {
     string acc = r.edge->GetBindingBool("generator") ? string("generator") : r.edge->EvaluateCommand(true);
     acc.push_back('\0'); acc += out; acc.push_back('\0');
     // contents only (not names): two headers with identical text are interchangeable for the output
-    for (auto& p : r.reads) { acc += r.snapshot.at(p); acc.push_back('\0'); }
+    // ... of the SET of files read: each file once, order irrelevant
+    std::set<string> paths(r.reads.begin(), r.reads.end());
+    vector<string> cs;
+    for (auto& p : paths) cs.push_back(r.snapshot.at(p));
+    std::sort(cs.begin(), cs.end());
+    for (auto& c : cs) { acc += c; acc.push_back('\0'); }
     return "H:" + u64hex(fnv(acc));
   }
   BuildResult WaitForCommand() override {
